@@ -126,6 +126,12 @@ def _one(args):
                 compile(new_src, str(p), "exec")
             except SyntaxError as e:
                 return {"name": mut["name"], "status": "bad-mutant", "why": f"does not compile: {e}"}
+        if "patch" in mut:
+            import subprocess
+            subprocess.run(["git", "init", "-q"], cwd=scratch, check=False, capture_output=True)
+            r = subprocess.run(["git", "apply", "--whitespace=nowarn", mut["patch"]], cwd=scratch, capture_output=True, text=True)
+            if r.returncode != 0:
+                return {"name": mut["name"], "status": "skipped", "why": "patch does not apply to the current tree: " + r.stderr.strip()[:120]}
         edits = mut.get("edits") or ([(mut["file"], mut["old"], mut["new"])] if "old" in mut else [])
         for file, old, new in edits:
             p = scratch / file
@@ -157,7 +163,20 @@ def _one(args):
 
 def run_battery(ctx, mutants: list[dict], twins: list[dict] | None = None) -> dict:
     """returns coverage fragment for the evidence; 'selftest_broken' lists failures of the checker itself"""
-    twins = twins or []
+    twins = list(twins or [])
+    mutants = list(mutants)
+    # the corpus of independently written changes (seeded/): defects of this property must be reported by one of its rules,
+    # behaviour-preserving twins must leave it silent
+    seeded = pathlib.Path(__file__).resolve().parent.parent / "seeded"
+    if seeded.is_dir():
+        for d in sorted(seeded.iterdir()):
+            pf = d / "patch.diff"
+            if not pf.exists():
+                continue
+            if d.name.startswith(f"{ctx.prop}-"):
+                mutants.append(dict(name=f"seeded:{d.name}", patch=str(pf), expect=[ctx.prop + "."]))
+            elif d.name.startswith(f"twin-{ctx.prop}-"):
+                twins.append(dict(name=f"seeded:{d.name}", patch=str(pf)))
     base = {(f.rule, f.construct) for f in ctx.findings}
     jobs = [(ctx.prop, str(ctx.root), m) for m in mutants + twins]
     workers = min(16, max(1, len(jobs)), os.cpu_count() or 4)
@@ -178,7 +197,7 @@ def run_battery(ctx, mutants: list[dict], twins: list[dict] | None = None) -> di
         new = [tuple(k) for k in r["keys"] if tuple(k) not in base]
         exp = m["expect"]
         exp = [exp] if isinstance(exp, str) else exp
-        if any(k[0] in exp for k in new):
+        if any(k[0] == e or (e.endswith(".") and k[0].startswith(e)) for k in new for e in exp):
             fired.append({"mutant": m["name"], "reported": [f"{k[0]} {k[1]}" for k in new][:4]})
         else:
             broken.append(f"mutant {m['name']} (expects {exp}) not reported; new findings: {new[:3]}")
